@@ -69,3 +69,17 @@ func VerifControlList(stateResAlgo StateResAlgorithm, stateSets [][]PDU, authEve
 	}
 	return
 }
+
+// VerifConflictedSubgraph runs the v2 / v2.1 auth-chain walk of one state set: the full auth chain and (v2.1) the
+// conflicted subgraph, as event IDs.
+func VerifConflictedSubgraph(stateResAlgo StateResAlgorithm, stateSet, conflicted, authEvents []PDU) (full, subgraph []string) {
+	r := stateResolverV2{authEventMap: eventMapFromEvents(authEvents), conflictedEventMap: eventMapFromEvents(conflicted)}
+	f, s := r.calculateFullAuthChainAndConflictedSubgraph(stateResAlgo, stateSet, newPDUSet(conflicted))
+	for _, p := range f.Slice() {
+		full = append(full, p.EventID())
+	}
+	for _, p := range s.Slice() {
+		subgraph = append(subgraph, p.EventID())
+	}
+	return
+}
